@@ -77,12 +77,16 @@ class Puppet:
 
     async def do(self, w, items, verb):
         for it in items:
-            if not self.ctl_open and it[0] in ("r", "eof"):
+            if not self.ctl_open and it[0] in ("r", "eof", "trunc"):
                 continue
             if it[0] == "r":
                 _, code, pl = it
                 w.write((self.reply_text(code, pl, verb) + "\r\n").encode())
                 self.log({"ev": "Reply", "code": code, "pl": pl})
+            elif it[0] == "trunc":
+                # the beginning of a multi-line reply and nothing more: not a reply (the specification sees only the end of file
+                # that follows); the client must treat the end of the stream inside a reply like any other
+                w.write(("%d-and then\r\n more\r\n" % it[1]).encode())
             elif it[0] == "eof":
                 self.ctl_open = False
                 self.log({"ev": "CtlEof"})
@@ -317,7 +321,7 @@ def policy(seed, p, *, mlsd=True, mlst=True, epsv=True, exists=0.5):
             it = [["r", 120, "plain"]] if rng.random() < 0.2 else []
             return it + [["r", final(220), "plain"]]
         if rng.random() < p / 4:
-            return [["eof"]]
+            return [["eof"]] if rng.random() < 0.6 else [["trunc", rng.choice([150, 226, 250, 227])], ["eof"]]
         if verb in ("MLSD", "LIST", "RETR", "STOR"):
             if (verb == "MLSD" and not mlsd):
                 return [["r", final(rng.choice([500, 502])), "plain"]]
